@@ -874,7 +874,7 @@ class MBXML:
                     + attributes
                     + (
                         (cls.write_uintvar(len(part.value)) + part.value)
-                        if len(part.value)
+                        if part.length != 0
                         else b""
                     )
                 )
